@@ -335,6 +335,16 @@ class Engine:
                     cand = k_ * self.wlmax + rng.choice([4e-4, 1e-4, 1e-5, 2e-3])
                     if cand <= min(avail, room):
                         v = cand
+                elif math.isfinite(self.wlmax) and 0 < self.wlmax <= 200 and rng.random() < 0.12:
+                    # the same with so many steps that every full step IS the step limit (a step is a whole number of
+                    # microlitres unless the limit is smaller: from k > c / (limit - c) steps on, c = ceil(limit) - 1,
+                    # nothing is left to round)
+                    c_ = math.ceil(self.wlmax) - 1
+                    k_ = int(c_ / (self.wlmax - c_)) + rng.choice([0, 1, 1, 2, 4])
+                    cand = k_ * self.wlmax + rng.choice([4e-3, 2e-3, 4e-4, 1e-4, 1e-5])
+                    if 1 <= k_ <= 1400 and cand <= min(avail, room):
+                        v = cand
+                        self.ctx.count("transfer_volume_a_hair_above_many_full_steps")
             else:
                 side = rng.choice(["src", "dst"])
                 v = self.aim(avail if side == "src" else room, a)
